@@ -26,14 +26,14 @@ ASSUMPTIONS = [
     'titles and paths ASCII',
     'wall clock frozen by monkeypatching datetime in io.sqw._models/_build',
 ]
-REQUIRED_CLASSES = ['file_decoded', 'perm_identical', 'byteorder_big', 'byteorder_little', 'sink_path', 'sink_bytes', 'multi_chunk_write']
+REQUIRED_CLASSES = ['file_decoded', 'perm_identical', 'byteorder_big', 'byteorder_little', 'sink_path', 'sink_bytes', 'sink_path_preexisting_longer_file', 'dnd_singleton_axis', 'multi_chunk_write']
 BOUND = {
     'quick': 'all 326 programs x 3 byte orders x 2 sinks x 2 chunks at 7 pixels; (n, chunk) grid up to 20000 pixels',
     'thorough': 'same plus 100000 pixels and chunk 100000, runs up to 20, strings up to 70000',
 }
 
 BYTEORDERS = ('native', 'little', 'big')
-SINKS = ('bytes', 'path')
+SINKS = ('bytes', 'path', 'path_existing')
 
 
 def _subsets():
@@ -61,6 +61,10 @@ def cases(tier):
                     if tier == 'quick' and n >= 8191 and ch < 100 and not (bo == 'little' and sink == 'bytes'):
                         continue
                     out.append({'kind': 'grid', 'n_pixels': n, 'chunk': ch, 'byteorder': bo, 'sink': sink, 'runs': 1})
+    # histogram shapes incl. leading / trailing / only singleton axes (block size vs written size)
+    for nb in ((2, 2, 2, 2), (1, 1, 1, 1), (2, 3, 1, 1), (4, 1, 1, 2), (1, 5, 3, 2), (3, 5, 2, 4), (40, 50, 4, 1)):
+        for bo in ('little', 'big'):
+            out.append({'kind': 'grid', 'n_pixels': 10, 'chunk': 4, 'byteorder': bo, 'sink': 'bytes', 'runs': 1, 'n_bins': list(nb)})
     for runs in (1, 2, 20):
         for bo in ('little', 'big'):
             out.append({'kind': 'grid', 'n_pixels': 13, 'chunk': 4, 'byteorder': bo, 'sink': 'bytes', 'runs': runs})
@@ -165,15 +169,22 @@ def run_case(case, rec):
         rec.validated += len(files)
         if sub:
             rec.nontrivial += 1
-        rec.cls('sink_' + case['sink'])
+        rec.cls('sink_' + case['sink'].split('_')[0])
+        if case['sink'] == 'path_existing':
+            rec.cls('sink_path_preexisting_longer_file')
         if 'pix' in sub and case['chunk'] == 2:
             rec.cls('multi_chunk_write')
     elif kind == 'grid':
         n = case['n_pixels']
-        data, _ = sq.write_file(sq.OPS, byteorder=case['byteorder'], sink=case['sink'], chunk=case['chunk'], n_pixels=n, runs=case['runs'])
-        check_file(rec, case, data, sq.OPS, byteorder=case['byteorder'], n_pixels=n)
+        nb = tuple(case.get('n_bins', (2, 2, 2, 2)))
+        data, _ = sq.write_file(sq.OPS, byteorder=case['byteorder'], sink=case['sink'], chunk=case['chunk'], n_pixels=n, runs=case['runs'], n_bins=nb)
+        check_file(rec, case, data, sq.OPS, byteorder=case['byteorder'], n_pixels=n, n_bins=nb)
+        if 1 in nb:
+            rec.cls('dnd_singleton_axis')
         rec.nontrivial += 1
-        rec.cls('sink_' + case['sink'])
+        rec.cls('sink_' + case['sink'].split('_')[0])
+        if case['sink'] == 'path_existing':
+            rec.cls('sink_path_preexisting_longer_file')
         if case['chunk'] < n:
             rec.cls('multi_chunk_write')
         if case['chunk'] * 9 < n:
